@@ -272,6 +272,12 @@ class VariantFlow:
                     self.syms[key].payload[(0, 0)] = pay
                 self.syms[key].meta["branch_of"] = a
                 return val
+        if fn == "std::ops::FromResidual::from_residual" and len(t["d"]) == 1:
+            head = self.body.local_head(t["d"][0])
+            if head == "std::option::Option":
+                return self.new_sym(env, ("residual", bb), head, [0], origin=("call", bb))
+            if head == "std::result::Result":
+                return self.new_sym(env, ("residual", bb), head, [1], origin=("call", bb))
         # unknown call: fresh value of the destination's type
         d = t["d"]
         if len(d) == 1:
@@ -335,6 +341,19 @@ class VariantFlow:
                             else:
                                 excl = {self.discr_to_variant(sym.adt, x) for x in listed}
                                 e2["S"][s] = frozenset(set(cur) - excl)
+                            # `x?`: refining the ControlFlow refines the Result/Option it came from
+                            bo = sym.meta.get("branch_of")
+                            if bo and len(bo) == 1 and sym.adt == "std::ops::ControlFlow":
+                                u = next(iter(bo))
+                                usym = self.syms[u]
+                                is_res = usym.adt == "std::result::Result"
+                                good = 0 if is_res else 1
+                                allowed = set()
+                                if 0 in e2["S"][s]:
+                                    allowed.add(good)
+                                if 1 in e2["S"][s]:
+                                    allowed.add(1 - good)
+                                e2["S"][u] = e2["S"].get(u, frozenset()) & frozenset(allowed)
                         # narrow the holder if it is a plain local
                         if len(cond.place) == 1 and isinstance(e2["L"].get(cond.place[0]), frozenset):
                             e2["L"][cond.place[0]] = frozenset(keep)
